@@ -47,7 +47,7 @@ def run(prog, rep):
     # positive control for E4.g: the detector recognises interior-mutable type names
     # I: entry points take &self
     rep.rule("C12.I", "a loaded file cannot change: execution entry points borrow it shared, its types hold no interior mutability, and only parser/checker write AST fields")
-    entries = [f for f in prog.fns.values() if f.self_path in ("tsg::ast::File", "tsg::ast::Stanza") and re.match(r"^(execute\w*|try_visit_matches\w*|check_globals)$", f.name) and f.kind == "assocfn"]
+    entries = [f for f in prog.shape_fns() if f.self_path in ("tsg::ast::File", "tsg::ast::Stanza") and re.match(r"^(execute\w*|try_visit_matches\w*|check_globals)$", f.name) and f.kind == "assocfn"]
     for f in entries:
         t = f.ty(f.inputs[0])
         rep.check(t.k == "ref" and not t.mut, "C12.I", "%s :: &self" % f.id, f.loc(), "receiver is a shared reference", "%s takes %s: a loaded file can be modified by running it" % (f.name, t.s))
@@ -63,7 +63,7 @@ def run(prog, rep):
         rep.trust("%s: %s" % (k, v))
     # AST field writes only in parser/checker
     nw = 0
-    for f in sorted(prog.fns.values(), key=lambda x: x.id):
+    for f in sorted(prog.shape_fns(), key=lambda x: x.id):
         if f.body is None or f.crate.prefix != "tsg":
             continue
         for b, idx, st in f.body.field_writes():
@@ -83,7 +83,7 @@ def run(prog, rep):
     # P: per-execution state is created inside the drivers
     rep.rule("C12.P", "execute_strict_into / execute_lazy_into build their variable maps, stores and buffers locally and wrap the caller's globals with Globals::nested; "
                       "nothing but the caller's graph is reachable mutably from outside")
-    for f in [x for x in prog.fns.values() if x.name in ("execute_strict_into", "execute_lazy_into") and x.kind == "assocfn"]:
+    for f in [x for x in prog.shape_fns() if x.name in ("execute_strict_into", "execute_lazy_into") and x.kind == "assocfn"]:
         body, tr = f.body, Tracer(f.body)
         muts = [i for i in f.inputs if f.ty(i).k == "ref" and f.ty(i).mut]
         rep.check(len(muts) == 1 and "graph::Graph" in f.ty(muts[0]).s, "C12.P", "%s :: only the graph is &mut" % f.id, f.loc(), "the only mutable parameter is the caller's graph",
